@@ -264,9 +264,98 @@ SHAPES = {
 }
 
 
+# unbounded recursion through every kind of frame, entered at different depths: the frame limit is checked by equality
+# in several places, so whether a native lands exactly on the limit depends on the depth the cycle started at
+RECURSIONS = {
+    "fn": ("fn f(n) { return f(n + 1) + 1; }", "f(0)"),
+    "closure": ("let g = nil;\ng = |n| g(n + 1);", "g(0)"),
+    "method": ("class R { m(n) { return self.m(n + 1); } }", "R().m(0)"),
+    "init": ("class R { init() { self.x = R(); } }", "R()"),
+    "each": ("fn f(x) { [1].iter().each(f); }", "f(1)"),
+    "each-lambda": ("fn f(x) { [1].iter().each(|y| f(y)); }", "f(1)"),
+    "each-lambda-lambda": ("fn f(x) { [1].iter().each(|y| (|z| f(z))(y)); }", "f(1)"),
+    "map-list": ("fn f(x) { return [1].iter().map(f).list(); }", "f(1)"),
+    "filter-list": ("fn f(x) { return [1].iter().filter(f).list(); }", "f(1)"),
+    "all": ("fn f(x) { return [1].iter().all(f); }", "f(1)"),
+    "any": ("fn f(x) { return [1].iter().any(f); }", "f(1)"),
+    "reduce": ("fn f(a, x) { return [1].iter().reduce(0, f); }", "f(0, 1)"),
+    "into": ("fn f(it) { return [1].iter().into(f); }", "f(nil)"),
+    "sort": ("fn f(a, b) { [2, 1].sort(f); return 0; }", "f(1, 2)"),
+    "call-native": ("fn f(x) { return f.call(x); }", "f(1)"),
+    "str-interp": ("class T { str() { return \"${self}\"; } }", "print(T())"),
+    "str-print": ("class T { str() { print(self); return \"t\"; } }", "print(T())"),
+    "str-list": ("class T { str() { return [self].str(); } }", "print(T())"),
+    "str-map": ("class T { str() { return {1: self}.str(); } }", "print(T())"),
+    "str-tuple": ("class T { str() { return (self, 1).str(); } }", "print(T())"),
+    "for-user-iterator": ("class It { iter() { self } next() { for x in It() { } return false; } current() { 1 } }", "for x in It() { }"),
+    "index-get-user": ("fn f(x) { return [f][0](x); }", "f(1)"),
+}
+
+
+def field_corruption_sources():
+    """Builtin instances keep their state in ordinary fields: a script can overwrite them with any value before the
+    natives (or the vm's own traceback printer) read them back."""
+    out = []
+    values = ["5", "nil", "[1]", "true", "Obj()", "|x| x", "(1, 2)", "{}"]
+    for field in ("pattern", "flags"):
+        for vi, v in enumerate(values):
+            for m in ("test", "match", "captures", "matchAll"):
+                out.append(("regexp-%s-%d-%s" % (field, vi, m),
+                            "import std.regexp:{RegExp};\nclass Obj {}\nlet r = RegExp(\"a+\");\nr.%s = %s;\n"
+                            "try { print(r.%s(\"caat\")); } catch e { print(e.cls().name()); }\nprint(\"end\");" % (field, v, m)))
+    for field in ("message", "inner", "backTrace"):
+        for vi, v in enumerate(values):
+            base = "class Obj {}\nlet err = Error(\"m\");\nerr.%s = %s;\n" % (field, v)
+            out.append(("error-%s-%d-caught" % (field, vi),
+                        base + "try { raise err; } catch e { print(e.cls().name()); }\nprint(\"end\");"))
+            out.append(("error-%s-%d-uncaught" % (field, vi), base + "raise err;"))
+            out.append(("error-%s-%d-as-inner-uncaught" % (field, vi), base + "raise Error(\"outer\", err);"))
+            out.append(("error-%s-%d-raised-in-fn-uncaught" % (field, vi), base + "fn f() { raise err; }\nfn g() { f(); }\ng();"))
+    return out
+
+
+def blocked_in_callback_sources():
+    """A receive that can never complete, inside a callback run by a native: the deadlock has to be reported the same
+    way as anywhere else."""
+    out = []
+    forms = {
+        "each": "[1].iter().each(|x| <- c)",
+        "map-list": "[1].iter().map(|x| <- c).list()",
+        "filter-list": "[1].iter().filter(|x| <- c).list()",
+        "reduce": "[1].iter().reduce(0, |a, x| <- c)",
+        "sort": "[2, 1].sort(|a, b| <- c)",
+        "all": "[1].iter().all(|x| <- c)",
+        "call": "(|x| <- c).call(1)",
+        "str": "print(Blk())",
+        "send-sync": "[1].iter().each(|x| c <- x)",
+    }
+    for name, e in sorted(forms.items()):
+        pre = "let c = chan();\nclass Blk { str() { return <- c; } }\n"
+        out.append(("blocked-in-%s" % name, pre + "%s;\nprint(\"end\");" % e))
+        out.append(("blocked-in-%s-in-try" % name, pre + "try { %s; } catch e { print(\"caught\"); }\nprint(\"end\");" % e))
+        out.append(("blocked-in-%s-in-fiber" % name, pre + "fn w() { %s; }\nlaunch w();\nprint(\"main\");\n<- c;" % e))
+    return out
+
+
+def recursion_sources():
+    out = []
+    for name, (decl, start) in sorted(RECURSIONS.items()):
+        for k in range(0, 7):
+            wrappers = []
+            call = start
+            for j in range(k):
+                wrappers.append("fn w%d() { %s; }" % (j, call))
+                call = "w%d()" % j
+            out.append(("recursion-%s-from-depth-%d" % (name, k),
+                        decl + "\n" + "\n".join(wrappers) + "\ntry { %s; } catch e { print(e.message); }\nprint(\"end\");" % call))
+            if k in (0, 3):
+                out.append(("recursion-%s-from-depth-%d-uncaught" % (name, k), decl + "\n" + "\n".join(wrappers) + "\n%s;" % call))
+    return out
+
+
 def extra(tier, ctx):
     out = []
-    for name, src in sorted(SHAPES.items()):
+    for name, src in sorted(SHAPES.items()) + recursion_sources() + field_corruption_sources() + blocked_in_callback_sources():
         o = run_source(src, ctx, "shape:" + name, "shape " + name)
         o.nontrivial = True
         o.labels = ["shape"]
